@@ -32,6 +32,9 @@ def _check_if_redundant_slice(
     if starts_const is None or ends_const is None or axes_const is None or steps_const is None:
         logger.info("The value 'start', 'end', 'axis', 'step' is not statically known.")
         return False
+    if any(v.is_graph_input() for v in (starts, ends, axes, steps)):
+        logger.info("An initializer that is also a graph input is only a default value.")
+        return False
 
     # Check if the values are scalar
     if starts_const.numpy().size != 1:  # type: ignore[union-attr]
